@@ -85,7 +85,8 @@ type ssaRendering struct {
 	ShortHour     bool     `json:"short_hour"`
 	ColorMode     int      `json:"color_mode"` // 0 decimal, 1 &H hex 8 digits upper, 2 &H hex lower, 3 hex minimal digits (>=6), 4 negative decimal when alpha>=0x80
 	Tertiary      bool     `json:"tertiary"`
-	BreakUpper    bool     `json:"break_upper"` // \N instead of \n
+	BreakUpper    bool     `json:"break_upper"`         // \N instead of \n
+	BreakMix      bool     `json:"break_mix,omitempty"` // both forms inside one event, alternating
 	Junk          bool     `json:"junk"`
 	UnknownSec    bool     `json:"unknown_section"`
 	OtherEvents   bool     `json:"other_events"`
@@ -157,20 +158,24 @@ func (st ssaStyleM) cell(col string, r ssaRendering) string {
 	return ""
 }
 
-func renderSSAText(lines [][]ssaRun, upper bool) string {
-	brk := "\\n"
+func renderSSAText(lines [][]ssaRun, upper bool, mix ...bool) string {
+	brk := []string{"\\n", "\\N"}
 	if upper {
-		brk = "\\N"
+		brk = []string{"\\N", "\\n"}
 	}
-	var ls []string
-	for _, l := range lines {
-		s := ""
-		for _, r := range l {
-			s += r.Effect + r.Text
+	if len(mix) == 0 || !mix[0] {
+		brk[1] = brk[0]
+	}
+	out := ""
+	for i, l := range lines {
+		if i > 0 {
+			out += brk[(i-1)%2]
 		}
-		ls = append(ls, s)
+		for _, r := range l {
+			out += r.Effect + r.Text
+		}
 	}
-	return strings.Join(ls, brk)
+	return out
 }
 
 func renderSSA(d ssaDoc, r ssaRendering) []byte {
@@ -285,7 +290,7 @@ func renderSSA(d ssaDoc, r ssaRendering) []byte {
 			case "Effect":
 				cells = append(cells, e.Effect)
 			case "Text":
-				cells = append(cells, renderSSAText(e.Lines, r.BreakUpper))
+				cells = append(cells, renderSSAText(e.Lines, r.BreakUpper, r.BreakMix))
 			}
 		}
 		return kv(cat, strings.Join(cells, ","))
@@ -820,6 +825,7 @@ func genSSARendering(t *rapid.T, cols map[string]bool) ssaRendering {
 		ColorMode:     rapid.IntRange(0, 4).Draw(t, "colormode"),
 		Tertiary:      rapid.Bool().Draw(t, "tertiary"),
 		BreakUpper:    rapid.Bool().Draw(t, "breakupper"),
+		BreakMix:      rapid.IntRange(0, 3).Draw(t, "breakmix") == 0,
 		Junk:          rapid.Bool().Draw(t, "junk"),
 		UnknownSec:    rapid.Bool().Draw(t, "unknownsec"),
 		OtherEvents:   rapid.Bool().Draw(t, "otherevents"),
